@@ -17,6 +17,9 @@ programmer chose.
   C10 `if c: x = A else: x = B` -> `x = A if c else B`.
   C11 `sum([... for ...])` (any, all, max, min, sorted, set, tuple, list) -> `sum(... for ...)`.
   C12 `a, b = x, y` (plain names, no name read on the right) -> `a = x; b = y`.
+  C13 an annotated assignment `x: T = v` -> `x = v`; a bare declaration `x: T` is dropped (annotations of
+      parameters and returns are never looked at).
+  C14 an f-string -> `"<template>".format(<values>)` (constant format specs and conversions kept).
   C5  statements without effect (a bare constant expression that is not a docstring; `pass` in a block that has
       other statements) are dropped.
 
@@ -176,6 +179,57 @@ class _Canon(ast.NodeTransformer):
     # C4
     def visit_Assign(self, n):
         self.generic_visit(n)
+        if len(n.targets) == 1 and isinstance(n.targets[0], ast.Name) and isinstance(n.value, ast.BinOp) \
+                and isinstance(n.value.op, (ast.Add, ast.Sub)) and isinstance(n.value.left, ast.Name) \
+                and n.value.left.id == n.targets[0].id and isinstance(n.value.right, ast.Constant) \
+                and isinstance(n.value.right.value, (int, float)) and not isinstance(n.value.right.value, bool):
+            new = ast.AugAssign(target=ast.Name(id=n.targets[0].id, ctx=ast.Store()), op=n.value.op, value=n.value.right)
+            ast.copy_location(new, n)
+            ast.copy_location(new.target, n.targets[0])
+            return new
+        return n
+
+    # C14: an f-string is written as "<template>".format(<values>) (the older spelling the rules know)
+    def visit_JoinedStr(self, n):
+        for v in n.values:                  # (format specs are not visited: they must stay JoinedStr nodes)
+            if isinstance(v, ast.FormattedValue):
+                v.value = self.visit(v.value)
+        tmpl, args = "", []
+        for v in n.values:
+            if isinstance(v, ast.Constant) and isinstance(v.value, str):
+                tmpl += v.value.replace("{", "{{").replace("}", "}}")
+            elif isinstance(v, ast.FormattedValue):
+                spec = ""
+                if v.format_spec is not None:
+                    fs = v.format_spec      # (already visited: a constant spec has become a plain Constant)
+                    if isinstance(fs, ast.Constant):
+                        spec = ":" + str(fs.value)
+                    elif isinstance(fs, ast.JoinedStr) and all(isinstance(x, ast.Constant) for x in fs.values):
+                        spec = ":" + "".join(str(x.value) for x in fs.values)
+                    else:
+                        return n            # nested replacement field in the format spec: left alone
+                conv = {-1: "", 115: "!s", 114: "!r", 97: "!a"}.get(v.conversion, None)
+                if conv is None:
+                    return n
+                tmpl += "{" + conv + spec + "}"
+                args.append(v.value)
+            else:
+                return n
+        if not args:
+            return ast.copy_location(ast.Constant(value=tmpl.replace("{{", "{").replace("}}", "}")), n)
+        call = ast.Call(func=ast.Attribute(value=ast.Constant(value=tmpl), attr="format", ctx=ast.Load()), args=args, keywords=[])
+        return ast.fix_missing_locations(ast.copy_location(call, n))
+
+    # C13: `x: T = v` is `x = v`; a bare declaration `x: T` has no effect
+    def visit_AnnAssign(self, n):
+        self.generic_visit(n)
+        if n.value is None:
+            return ast.copy_location(ast.Pass(), n)
+        new = ast.Assign(targets=[n.target], value=n.value)
+        return self.visit_Assign_post(ast.copy_location(new, n))
+
+    def visit_Assign_post(self, n):
+        # (the C4 rewrite for an assignment that was produced from an annotated one)
         if len(n.targets) == 1 and isinstance(n.targets[0], ast.Name) and isinstance(n.value, ast.BinOp) \
                 and isinstance(n.value.op, (ast.Add, ast.Sub)) and isinstance(n.value.left, ast.Name) \
                 and n.value.left.id == n.targets[0].id and isinstance(n.value.right, ast.Constant) \
